@@ -5,7 +5,7 @@
    Proof/C36_Sim.v: the simulation relation R and `allowed`. *)
 From Coq Require Import List NArith Bool String.
 Import ListNotations.
-Require Import RV.Model.C36_ManifestIds RV.Proof.C36_Sim RV.Gen.C36_effects.
+Require Import RV.Model.C36_ManifestIds RV.Proof.C36_Sim RV.Proof.C36_Lock RV.Gen.C36_effects.
 Open Scope N_scope.
 
 (* forward simulation static -> run time, every ruleset, every manifest: on an accepted manifest the
@@ -22,17 +22,33 @@ Theorem C36_runtime_simulation : forall rs m, validate rs m = Ok tt ->
   end.
 Proof. exact runtime_never_missing_node. Qed.
 
-(* accepted (with the blob, dangling-node, dynamic-address and assertion checks on) => the whole
-   lifecycle run succeeds: every id used was created earlier and is still live, nothing is consumed
-   twice (a consumed id is no longer live), at the end no bucket and no address reservation is left,
-   and a subintent ends with YIELD_TO_PARENT.
-   PARTIAL: the clause "a bucket is not consumed while a proof created from it is live" (the
-   proof_locks counter; `rt_run true`) is not proved here; it is covered by the correspondence check
-   and the harness replay oracle only. *)
-Theorem C36_static_sound_partial : forall rs m, all_checks rs -> validate rs m = Ok tt ->
-  exists f, rt_run false m = ROk f /\ rt_buckets f = [] /\ rt_res f = [] /\
-            (m_subintent m = true -> ends_with_yield m).
-Proof. exact static_sound_nolock. Qed.
+(* C36_static_sound. `rt_run true` is the lifecycle specification: ids are created sequentially; a
+   bucket / proof / reservation can be used only while it is in the live set (created earlier, not yet
+   consumed — a consumed id has left the set, so nothing is consumed twice); a named address only if
+   allocated earlier; a blob only if registered; and a bucket cannot be consumed while a live proof was
+   created from it (LockedBucket).  A manifest accepted with all checks on runs through this
+   specification without any error, ends with no live bucket and no live reservation, a subintent
+   ends with YIELD_TO_PARENT, and every YIELD_TO_CHILD names a declared child. *)
+Theorem C36_static_sound : forall rs m, all_checks_lock rs -> validate rs m = Ok tt ->
+  (exists f, rt_run true m = ROk f /\ rt_buckets f = [] /\ rt_res f = [] /\
+             (m_subintent m = true -> ends_with_yield m)) /\
+  Forall (child_ok m) (m_instrs m).
+Proof. intros rs m Hc H. split; [exact (static_sound rs m Hc H) | exact (children_declared rs m H)]. Qed.
+
+(* the proof-lock clause alone, for every ruleset that has validate_bucket_proof_lock on (all shipped
+   rulesets): on an accepted manifest the specification with the lock clause takes exactly the
+   transitions of the run-time id maps — no bucket is consumed while a proof created from it is live *)
+Theorem C36_lock_clause : forall rs m, r_lock rs = true -> validate rs m = Ok tt ->
+  rt_run true m = rt_run false m /\ forall b, rt_run true m <> RErr (LockedBucket b).
+Proof. intros rs m Hl H. split; [exact (rt_run_lock_agree rs m Hl H) | exact (never_locked rs m Hl H)]. Qed.
+
+(* the counter invariant behind it, and its consequence: the checked `proof_locks -= 1` of
+   consume_proof never underflows — static validation never panics, for every ruleset and manifest *)
+Theorem C36_static_no_panic : forall rs m, validate rs m <> Panic.
+Proof. exact validate_no_panic. Qed.
+Theorem C36_lock_counter_invariant : forall rs m s i, LI s ->
+  match handle_instruction rs m s i with Ok s' => LI s' | Err _ => True | Panic => False end.
+Proof. exact good_instruction. Qed.
 
 (* the step-wise simulation itself (the invariant R relates the two machines' states) *)
 Theorem C36_step_simulation : forall rs m s r i s', R (m_blobs m) s r -> handle_instruction rs m s i = Ok s' ->
@@ -51,7 +67,7 @@ Example C36_nonvacuous :
     [ICreateBucket true; ICreateProofBucket 0; ICloneProof 0; IAllocate;
      IInvoke (KMethod (Some 0)) [AProof 1; AReservation 0; ABlob 7]; IDropMany true false;
      IAssert (AsNextCall true); IInvoke (KYieldToChild 0) [ABucket 0]; IInvoke KYieldToParent []] in
-  all_checks ruleset_all /\ validate ruleset_all m = Ok tt /\
+  all_checks_lock ruleset_all /\ validate ruleset_all m = Ok tt /\
   validate ruleset_all (mkManifest false 0 0 [] [ICreateBucket true; IConsumeBucket 0; IConsumeBucket 0])
     = Err (EBucketAlreadyUsed 0) /\
   validate ruleset_all (mkManifest false 0 0 [] [ICreateBucket true; ICreateProofBucket 0; IConsumeBucket 0])
@@ -60,6 +76,9 @@ Example C36_nonvacuous :
 Proof. cbv zeta. repeat split; vm_compute; reflexivity. Qed.
 
 Print Assumptions C36_runtime_simulation.
-Print Assumptions C36_static_sound_partial.
+Print Assumptions C36_static_sound.
+Print Assumptions C36_lock_clause.
+Print Assumptions C36_static_no_panic.
+Print Assumptions C36_lock_counter_invariant.
 Print Assumptions C36_step_simulation.
 Print Assumptions C36_effect_table_agrees.
